@@ -213,16 +213,9 @@ def wf_problems(sf, gf):
 
 # ---- classifier (mirrors of Lean Known… predicates / decidable text predicates)
 
-def known_bare_use(src_after_parse_sf):
-    """Lean KnownBareUse on every scope: a USE without ONLY list next to a redundant imported symbol"""
-    return None
-
-
 def classify(tname, src, probs):
     low = src.lower()
     if tname == 'sanitise_imports':
-        if re.search(r'^\s*use\s+\w+\s*$', low, re.M) and probs[0][0] in ('undeclared', 'gfortran'):
-            return 'sanitise-imports-drops-bare-use'
         if re.search(r'^module\s+(?!cmod|dmod)\w+\s*\n(?:.*\n)*?\s*use\s', low, re.M):
             return 'sanitise-imports-module-spec'
     if tname == 'remove_unused_vars(all)' and probs[0][0] in ('undeclared', 'gfortran') and re.search(r'^\s*do\s+\w+\s*=', low, re.M):
@@ -368,15 +361,15 @@ class C41(Prop):
     props_module = 'LokiModel.Props.C41'
     findings_module = 'LokiModel.Findings.C41'
     driver = 'Drivers/C41.lean'
-    theorems = ['lower_wf', 'lower_wf_eq', 'deadcode_wf', 'sanitise_imports_keeps_partial', 'sanitise_imports_bare_partial']
+    theorems = ['lower_wf', 'lower_wf_eq', 'deadcode_wf', 'sanitise_imports_keeps', 'sanitise_imports_bare']
     design_ref = 'DESIGN.md 4.F C41'
     level = 'proof'
     level_text = ('Proved at full strength about the models: lower_wf / lower_wf_eq (convert_to_lower_case keeps wf, in fact does not change '
-                  'it), deadcode_wf (do_remove_dead_code without simplify keeps wf whenever it returns).  _partial: '
-                  'sanitise_imports_keeps_partial (explicitly imported used names stay imported) and sanitise_imports_bare_partial (USE '
-                  'statements without ONLY list stay, outside class KnownBareUse = such a statement next to a redundant imported symbol, '
-                  'where the real code drops them).  Every other registered built-in transformation (34 entries with option '
-                  'combinations): oracle only (10 known-finding classes, one of them with a Lean predicate) — scope chains, declared-or-imported, frontend re-parse of fgen, gfortran -fsyntax-only.')
+                  'it), deadcode_wf (do_remove_dead_code without simplify keeps wf whenever it returns), sanitise_imports_keeps '
+                  '(explicitly imported used names stay imported) and sanitise_imports_bare (every USE statement without ONLY list stays; '
+                  'full since the repair of eliminate_unused_imports).  Every other registered built-in transformation (34 entries with '
+                  'option combinations): oracle only — scope chains, declared-or-imported, frontend re-parse of fgen, gfortran '
+                  '-fsyntax-only; the open known-finding classes are decidable text predicates of c41.classify.')
     level_note = ('wf is stated on FIR (case-insensitive look-ups); the correspondence compares the Lean wf of the model result with a Python '
                   'mirror of wf evaluated on the export of the really transformed IR.  A transformation that raises leaves no IR to judge: '
                   'counted in the evidence and reported in notes/C41.md, not a C41 failure.')
@@ -389,7 +382,7 @@ class C41(Prop):
     extra_obligations = ['oracle: scope chains, declared-or-imported, re-parse and gfortran syntax check after every registered transformation']
 
     def classes(self):
-        return ['sanitise-imports-drops-bare-use', 'sanitise-imports-module-spec', 'remove-unused-vars-loop-variable', 'vector-notation-half-open-range', 'normalize-shape-drops-stride', 'merge-associates-detached-scope', 'loop-unroll-exit-cycle', 'inline-offset-on-bare-range', 'explicit-dims-on-associate-name', 'inline-constants-associate-name']
+        return ['sanitise-imports-module-spec', 'remove-unused-vars-loop-variable', 'vector-notation-half-open-range', 'normalize-shape-drops-stride', 'merge-associates-detached-scope', 'loop-unroll-exit-cycle', 'inline-offset-on-bare-range', 'explicit-dims-on-associate-name', 'inline-constants-associate-name']
 
     def gen(self, rng, tier):
         rounds = {'quick': 1, 'thorough': 8, 'search': 3}.get(tier, 1)
